@@ -16,6 +16,7 @@ package schemaClient
 
 import (
 	"context"
+	"fmt"
 	"strings"
 	"sync"
 
@@ -132,6 +133,10 @@ func (scb *SchemaClientBoundImpl) ToPath(ctx context.Context, path []string) (*s
 			// adding the keys with the value from path[i], which is the key value
 			for _, k := range schemaKeys {
 				i++
+				// a path that ends within the keys of a list must not crash the caller
+				if i >= len(path) {
+					return nil, fmt.Errorf("path %v ends within the keys of list %s", path, newPathElem.Name)
+				}
 				newPathElem.Key[k.Name] = path[i]
 			}
 		}
